@@ -17,7 +17,7 @@ PROP["rule"] += " || v1: " + _SR
 PROP["assumptions"] = list(PROP["assumptions"]) + _SA
 
 META = {
-    "text": "Lean 4 totality theorems: under the batch invariant no mutator indexes out of range (C09_mutators_total, guards shown necessary), ProcessorTask.Do and DestinationTask.Do return ok-with-invariant or an error for ANY reply list (any length, kinds, positions, errors) and never panic (C09_procDo_total, C09_destDo_total, *_never_panics), the retry recursion is bounded (C09_retry_terminates). Every generated case (incl. a malformed reply stream) must end without panic/hang in the real engine; outcome class and event log equal the model's.",
+    "text": "Lean 4 totality theorems: under the batch invariant no mutator indexes out of range (C09_mutators_total, guards shown necessary), ProcessorTask.Do and DestinationTask.Do return ok-with-invariant or an error for ANY reply list (any length, kinds, positions, errors) and never panic (C09_procDo_total, C09_destDo_total, *_never_panics), the retry recursion is bounded (C09_retry_terminates). Every generated case (incl. a malformed reply stream) must end without panic/hang in the real engine; outcome class and event log equal the model's. v1: C09_v1_no_panic, _every_destination_reply_handled, _every_processor_reply_handled for the product model; RunnableProcessor condition merge C09_v1_cond_merge_aligned / _never_panics (all match patterns and reply lengths), tied by `condmerge` equality with the real RunnableProcessor.Process.",
     "note": 'v2 engine: task-level totality proved; pass-level by correspondence. v1 engine and RunnableProcessor condition merge: Props/C09Stream when merged. PARTIAL: the composition of these leaf theorems with the task recursion of Worker.doTaskAttempt/doNextTask (whole-pass statement) is validated by equality of event logs against the executable Lean model and by the Lean-defined trace monitor on every implementation trace (serial fan-out orders, real concurrent fan-out, several sources into one shared sink), not proved. v1 (default engine) part: Props/*Stream when merged. Trusted: Lean kernel, factgen, harness/fakes, Go runtime.',
     "technique": 'Lean 4 totality proofs (Except-valued model, partial indexing) + differential correspondence incl. malformed reply streams',
 }
